@@ -18,15 +18,15 @@ back end spells the leaf `reconcile` left there) together with the Rust-level th
   enum under its Rust name).
 * `Known_def_original` (per reference: a reference to a renamed *Go enum*) and `Known_shadow` (per
   program): the decidable classes in which it fails.  The classes `Known_generic_head`,
-  `Known_parent`, `Known_inner` of the previous round are repaired (`fix:` commits 821da1d, 03e02a1)
+  `Known_parent`, `Known_inner` of the previous round are repaired (`fix:` commits 944b749, 3d3e1e7)
   and `Known_def_original` has shrunk from "Kotlin / Scala / Go aliases and Go enums" to Go enums
-  (b182a80); their old witnesses are positive regression examples now (`repaired_*`).
+  (0c924cd); their old witnesses are positive regression examples now (`repaired_*`).
 * `C09_partial` — outside them it holds, for all six back ends and every prefix;
   `C09_exact` / `C09_converse` — and inside the per-reference class it always fails.
 * `C09_no_renames`, `C09_all_but_go`, `C09_go_without_renamed_enums`, `C09_generic_heads`,
   `C09_generic_parameters` — the corollaries.
 * Not covered by `C09_full` (single-file programs): Kotlin multi-file import lines.  The finding
-  `kotlin-import-without-prefix` is repaired (`fix:` commit abe0590): `C09_kotlin_import_lines` —
+  `kotlin-import-without-prefix` is repaired (`fix:` commit 8dc01bf): `C09_kotlin_import_lines` —
   every import line names the type with the prefix, as its own module defines it — and the old
   witness is the positive regression example `repaired_kotlin_import_prefix`.
 -/
@@ -139,7 +139,7 @@ theorem cfgOk_all : ∀ lc ∈ allLangs, CfgOk lc := by
 /-! ## the pipeline part: what `reconcile` does to references -/
 
 /-- **`reconcile` rewrites every name in a type**: in a single-file run the leaves of a reconciled
-type are the leaves of the source type, each `id` — a plain leaf or (since the `fix:` commit 821da1d)
+type are the leaves of the source type, each `id` — a plain leaf or (since the `fix:` commit 944b749)
 the head of a generic application — replaced by `recName … id` -/
 theorem C09_reconcile_leaves (P : ParsedData) (hs : InScope P) (ty : RustType) :
     leaves (checkType [] (renamesOf P) P.importTypes ty) =
@@ -234,7 +234,7 @@ def isGo : LangCfg → Bool
 
 /-- **(b) with renames, TypeScript, Swift, Python, Kotlin and Scala are consistent in full** — field
 types, payloads, generic heads and arguments, alias targets, parent classes, helper structs, every
-prefix — in every program without shadowing.  (Before the `fix:` commits 821da1d / b182a80 / 03e02a1
+prefix — in every program without shadowing.  (Before the `fix:` commits 944b749 / 0c924cd / 3d3e1e7
 this held for Swift, Python and TypeScript only, and only off generic heads.) -/
 theorem C09_all_but_go (P : ParsedData) (hs : InScope P) (lc : LangCfg) (hc : CfgOk lc)
     (hl : isGo lc = false) (hsh : Known_shadow P = false) : Consistent lc P :=
@@ -333,7 +333,7 @@ theorem consistentB_sound {lc : LangCfg} {P : ParsedData} (h : consistentB lc P 
     simp only [ho, bne_self_eq_false, Bool.false_or, hn, beq_iff_eq, Option.some.injEq] at this
     exact this.symm
 
-/-- **repaired `definition-under-original-name` (aliases, b182a80)**: Kotlin, Scala and Go define the
+/-- **repaired `definition-under-original-name` (aliases, 0c924cd)**: Kotlin, Scala and Go define the
 renamed alias as `AliasNew`, the name they refer to it by; the whole program is consistent in all
 eight configurations -/
 theorem repaired_alias_definition :
@@ -344,7 +344,7 @@ theorem repaired_alias_definition :
       defName ktOP (.alias wAlias) == s%"OPAliasNew") &&
      allLangs.all fun lc => consistentB lc W_alias) = true := by decide +kernel
 
-/-- **repaired `parent-class-original-name` (03e02a1)**: the cases extend `EnumNew`, the name of the
+/-- **repaired `parent-class-original-name` (3d3e1e7)**: the cases extend `EnumNew`, the name of the
 sealed class / trait -/
 theorem repaired_parent_class :
     ([kt0, sc0].all (fun lc =>
@@ -353,7 +353,7 @@ theorem repaired_parent_class :
      (hasRef ktOP W_enum (.enum wEnum) s%"OPEnumNew" (.parent s%"En") false (fun _ _ _ => true) &&
       defName ktOP (.enum wEnum) == s%"OPEnumNew")) = true := by decide +kernel
 
-/-- **repaired `inner-struct-original-name` (03e02a1)**: the content of `A` is `EnumNewAInner`, the
+/-- **repaired `inner-struct-original-name` (3d3e1e7)**: the content of `A` is `EnumNewAInner`, the
 name the helper is defined under; the whole program is consistent in all eight configurations -/
 theorem repaired_inner_struct :
     ([kt0, sc0].all (fun lc =>
@@ -361,7 +361,7 @@ theorem repaired_inner_struct :
       innerDefName lc wEnum s%"A" == some s%"EnumNewAInner") &&
      allLangs.all fun lc => consistentB lc W_enum) = true := by decide +kernel
 
-/-- **repaired `generic-head-not-renamed` (821da1d)**: all six back ends print `GenNew<String>` and
+/-- **repaired `generic-head-not-renamed` (944b749)**: all six back ends print `GenNew<String>` and
 define `GenNew`; the whole program is consistent in all eight configurations -/
 theorem repaired_generic_head :
     ([ts0, kt0, sw0, sc0, go0, py0].all (fun lc =>
@@ -402,7 +402,7 @@ not evaluated here: it does not change any text, only the order of the declarati
 def itemsOf (d : ParsedData) : List RustItem := d.aliases.map .alias ++ d.structs.map .struct ++ d.enums.map .enum
 
 /-- the model's Kotlin output for `W_alias` after `reconcile`: `typealias AliasNew` next to
-`val a: AliasNew` (was `typealias Al` before b182a80) -/
+`val a: AliasNew` (was `typealias Al` before 0c924cd) -/
 theorem kotlin_text_alias :
     (Lang.Kotlin.itemsFacts {} (itemsOf (reconcileOne (renamesOf W_alias) [] W_alias))).bind
         (fun ds => .ok (ds.flatMap Lang.Kotlin.renderDecl)) =
@@ -410,7 +410,7 @@ theorem kotlin_text_alias :
   decide +kernel
 
 /-- the model's Kotlin output for `W_enum`: `sealed class EnumNew`, cases `: EnumNew()`, content
-`EnumNewAInner`, helper `data class EnumNewAInner` (were `: En()` and `EnAInner` before 03e02a1) -/
+`EnumNewAInner`, helper `data class EnumNewAInner` (were `: En()` and `EnAInner` before 3d3e1e7) -/
 theorem kotlin_text_enum :
     (Lang.Kotlin.itemsFacts {} (itemsOf (reconcileOne (renamesOf W_enum) [] W_enum))).bind
         (fun ds => .ok (ds.flatMap Lang.Kotlin.renderDecl)) =
@@ -425,7 +425,7 @@ def wUserAlias : RustTypeAlias :=
 def W_generic2 : ParsedData := { structs := [wGe], aliases := [wUserAlias] }
 
 /-- the model's Kotlin output for `W_generic2`: `data class GenNew<T>` next to
-`typealias User = GenNew<String>` (was `Ge<String>` before 821da1d) -/
+`typealias User = GenNew<String>` (was `Ge<String>` before 944b749) -/
 theorem kotlin_text_generic :
     (Lang.Kotlin.itemsFacts {} (itemsOf (reconcileOne (renamesOf W_generic2) [] W_generic2))).bind
         (fun ds => .ok (ds.flatMap Lang.Kotlin.renderDecl)) =
@@ -442,7 +442,7 @@ def W_enum2 : ParsedData := { enums := [wEnum2] }
 
 /-- the model's Scala output (whole file) for `W_enum2`: `sealed trait EnumNew`, cases
 `extends EnumNew`, content `EnumNewAInner`, helper `class EnumNewAInner` (were `extends En` and
-`EnAInner` before 03e02a1) -/
+`EnAInner` before 3d3e1e7) -/
 theorem scala_text_enum :
     Lang.Scala.generate { package := s%"com.example" } (reconcileOne (renamesOf W_enum2) [] W_enum2) =
       .ok s%"package com\n\npackage example {\n\n// Generated type representing the anonymous struct variant `A` of the `En` Rust enum\nclass EnumNewAInner extends Serializable\n\nsealed trait EnumNew {\n\tdef serialName: String\n}\nobject EnumNew {\n\tcase class A(c: EnumNewAInner) extends EnumNew {\n\t\tval serialName: String = \"A\"\n\t}\n\tcase object C extends EnumNew {\n\t\tval serialName: String = \"C\"\n\t}\n}\n\n}\n" := by
@@ -458,7 +458,7 @@ theorem go_text_unit :
       [.ok s%"type User struct {\n\tU UnitNew `json:\"u\"`\n}\n"] := by
   decide +kernel
 
-/-! ## Kotlin multi-file import lines (repaired by the `fix:` commit abe0590)
+/-! ## Kotlin multi-file import lines (repaired by the `fix:` commit 8dc01bf)
 
 Before the repair `write_imports` (kotlin.rs:288) named the imported type as in the Rust source
 (`import com.example.alpha.Foo`) although the other module defines it behind the configured prefix
@@ -482,7 +482,7 @@ theorem C09_kotlin_import_lines (cfg : Lang.Kotlin.Cfg) (imps : ScopedCrateTypes
 
 /-- the old witness as a positive regression example: with prefix `OP` the import line of `Foo`
 reads `import com.example.alpha.OPFoo`, the name the class is defined under (it read
-`import com.example.alpha.Foo` before abe0590) -/
+`import com.example.alpha.Foo` before 8dc01bf) -/
 theorem repaired_kotlin_import_prefix :
     Lang.Kotlin.writeImports { package := s%"com.example", pfx := s%"OP" } [(s%"alpha", [s%"Foo"])] =
       s%"import com.example.alpha.OPFoo\n\n" ∧
@@ -528,8 +528,8 @@ example : InScope ({ structs := [mkStruct s%"Point" none [] [fld s%"x" (.prim .u
       (itemId it).serdeRename = false) :=
   ⟨inScope_of _ (by decide) (by decide) (by decide) (by decide) rfl rfl, by decide⟩
 
-/-- `C09_all_but_go`: Kotlin with a prefix on the alias witness (inconsistent there before b182a80)
-and on the tagged-enum witness (before 03e02a1) -/
+/-- `C09_all_but_go`: Kotlin with a prefix on the alias witness (inconsistent there before 0c924cd)
+and on the tagged-enum witness (before 3d3e1e7) -/
 example : isGo ktOP = false ∧ Known_shadow W_alias = false ∧ Known_shadow W_enum = false ∧
     hasRef ktOP W_alias (.struct wUserA) s%"OPAliasNew" (.type s%"Al") false (fun _ _ _ => true) = true ∧
     defName ktOP (.alias wAlias) = s%"OPAliasNew" :=
